@@ -129,20 +129,9 @@ open Jac
 
 /-! ## `jacobian_row` -/
 
-/-- the per-operator table of `VectorUnarySum.jacobian_row` (vectors.py; a table of its own in the
-    source, *not* the one of `gradient_vector_unary_sum`) -/
-def jacUnDeriv (op : VOp) (x : Expr) : Expr :=
-  match op with
-  | .sin => .un .cos x
-  | .cos => .bin .mul (Expr.c (-1)) (.un .sin x)
-  | .exp => .un .exp x
-  | .log => .bin .div (Expr.c 1) x
-  | .sqrt => .bin .div (Expr.c 1) (.bin .mul (Expr.c 2) (.un .sqrt x))
-  | .sinh => .un .cosh x
-  | .cosh => .un .sinh x
-  | .tanh => .bin .sub (Expr.c 1) (.bin .pow (.un .tanh x) (Expr.c 2))
-  | .tan => .bin .div (Expr.c 1) (.bin .pow (.un .cos x) (Expr.c 2))
-  | .abs => .bin .div x (.un .abs x)
+/- the per-operator table of `VectorUnarySum.jacobian_row` (vectors.py; a table of its own in the
+   source, *not* the one of `gradient_vector_unary_sum`) is `Optyx.Generated.unSumJacRow`,
+   regenerated from the source before every build. -/
 
 /-- `Constant(c * e.value) if isinstance(e, Constant) else BinaryOp(Constant(c), e, "*")`.
     A float product with `np.log(2.0)` / `np.log(10.0)` is not a rational: kept as a product
@@ -206,7 +195,7 @@ def jacRow (V : List Var) : Expr → Option (List Expr)
     some (V.map fun x => Expr.c ((dictGet x.name (v.vars.zip cs)).getD 0))
   | .powSum v k => some (V.map fun x => if hasName x.name v.vars then powRowEntry k x else Expr.c 0)
   | .unSum v op =>
-    some (V.map fun x => if hasName x.name v.vars then jacUnDeriv op (.var x) else Expr.c 0)
+    some (V.map fun x => if hasName x.name v.vars then unSumJacRow op (.var x) else Expr.c 0)
   | .matSumV m => some (V.map fun x => Expr.c (countName x.name m.flat : Nat))
   | .quad (.vars v) q =>
     let qs := qsym q
@@ -451,9 +440,23 @@ def HessClo.name : HessClo → String
   | .unSparse _ _ op => "hess_" ++ vopName op ++ "_sparse"
   | .general _ _ => "hessian_fn"
 
-/-- the loop of `hessian_fn`: `result[i, j] = val; if i != j: result[j, i] = val` for `j ≥ i`.
-    Every cell is written exactly once (cell (i,j) with the value of the compiled entry
-    (min i j, max i j)), so the array after the loops is this table. -/
+/-- `result[i, j] = v` on a 2-D array -/
+def set2 {α : Type} (M : List (List α)) (i j : Nat) (v : α) : List (List α) :=
+  M.set i ((M.getD i []).set j v)
+
+/-- one iteration of the inner loop of `hessian_fn`:
+    `val = compiled[(i, j)](x); result[i, j] = val; if i != j: result[j, i] = val` -/
+def hessStep {α : Type} (f : Nat → Nat → α) (i : Nat) (res : List (List α)) (j : Nat) : List (List α) :=
+  let val := f i j
+  let res := set2 res i j val
+  if i != j then set2 res j i val else res
+
+/-- the loops of `hessian_fn`, literally: `result = np.zeros((n, n)); for i in range(n): for j in range(i, n): …` -/
+def hessLoop {α : Type} [NumAlg α] (n : Nat) (f : Nat → Nat → α) : List (List α) :=
+  (List.range n).foldl (fun res i => (List.range' i (n - i)).foldl (hessStep f i) res) (zeros2 n)
+
+/-- closed form of `hessLoop` (`Lemmas/JacLoop.lean`: same entries): every cell is written exactly once,
+    cell (i, j) with the value of the compiled entry (min i j, max i j) -/
 def mirrorUpper {α : Type} (n : Nat) (f : Nat → Nat → α) : List (List α) :=
   (List.range n).map fun i => (List.range n).map fun j => if i ≤ j then f i j else f j i
 
@@ -474,7 +477,7 @@ def HessClo.run {α : Type} [NumAlg α] [DerivAlg α] (c : HessClo) (x : List α
     if hessUnSanitized op then sanitize2 res else res
   | .general V H =>
     let entry (i j : Nat) : α := denote (envOf V x) σ ((H.getD i []).getD j (Expr.c 0))
-    sanitize2 (mirrorUpper V.length entry)
+    sanitize2 (hessLoop V.length entry)
 
 /-- the entries `compile_hessian` hands to `compile_expression`: `H[i][j]` for `j ≥ i` -/
 def upperEntries (H : List (List Expr)) : List Expr :=
